@@ -32,7 +32,7 @@ FORBIDDEN = re.compile(
     r"type-in-type|impredicative-set|native_compute)\b")
 
 
-AUDIT_EXTRA = {"C09": ("C09ring",)}
+AUDIT_EXTRA = {"C09": ("C09ring", "C03")}
 
 
 def log(*a):
